@@ -17,6 +17,8 @@
 (*   call {.., inmut}      the value slice passed to Set was not written to*)
 (*   end {inmut, stuck}    end of a history: retained results rendered,    *)
 (*                         all inputs intact, no call stuck                *)
+(*   run {a, n, segs}      the same call n times (255..65537), replies     *)
+(*                         run-length encoded                              *)
 (*   (a `stuck` / `crash` event has no explanation: rejected)              *)
 (* A reply is explained iff the set of compatible contract states stays    *)
 (* non-empty (TTL!Post).                                                   *)
@@ -70,6 +72,32 @@ TCall(e) ==
   /\ last' = [a |-> e.a, r |-> e.r, rr |-> e.r]
   /\ UNCHANGED <<size, dttl, nk, mem, rds, reg, pend>>
 
+(* run {a, n, segs}: the same call n times back to back; segs = run-length-encoded replies.  A   *)
+(* reply repeated more than 3 times must have become a no-op for the contract by the 3rd.       *)
+EmptyW(W) == [cs |-> {}, sn |-> W.sn]
+RECURSIVE Rep(_, _, _, _)
+Rep(W, a, r, j) == IF j = 0 \/ W.cs = {} THEN W ELSE Rep(Post(W, a, r), a, r, j - 1)
+Seg(W, a, sg) ==
+  LET m  == IF sg.n < 3 THEN sg.n ELSE 3
+      W3 == Rep(W, a, sg.r, m)
+  IN IF sg.n > 3 /\ W3.cs # {} /\ Post(W3, a, sg.r) # W3 THEN EmptyW(W3) ELSE W3
+RECURSIVE Segs(_, _, _, _)
+Segs(W, a, sgs, i) == IF i > Len(sgs) \/ W.cs = {} THEN W ELSE Segs(Seg(W, a, sgs[i]), a, sgs, i + 1)
+RECURSIVE SumN(_, _)
+SumN(sgs, i) == IF i > Len(sgs) THEN 0 ELSE sgs[i].n + SumN(sgs, i + 1)
+
+TRun(e) ==
+  /\ Quiet
+  /\ InputKept(e)
+  /\ e.a.op \in {"set", "get", "rem", "clear"}
+  /\ e.n >= 1 /\ SumN(e.segs, 1) = e.n
+  /\ \A i \in 1..Len(e.segs) : e.segs[i].n >= 1
+  /\ LET W == Segs(World, e.a, e.segs, 1) IN
+       /\ W.cs # {}
+       /\ cset' = W.cs /\ seen' = W.sn
+  /\ last' = [a |-> e.a, r |-> e.segs[Len(e.segs)].r, rr |-> e.segs[Len(e.segs)].r]
+  /\ UNCHANGED <<now, size, dttl, nk, mem, rds, reg, pend>>
+
 TCall2(e) ==
   /\ InRegion(e.a)
   /\ e.rr = e.r
@@ -100,6 +128,7 @@ Consume ==
        CASE e.ev = "reset" -> TReset(e)
          [] e.ev = "call"  -> IF Failed(e) THEN TFail(e) ELSE TCall(e)
          [] e.ev = "end"   -> TEnd(e)
+         [] e.ev = "run"   -> TRun(e)
          [] e.ev = "call2" -> TCall2(e)
          [] e.ev = "inv"   -> TInv(e)
          [] e.ev = "res"   -> TRes(e)
